@@ -314,7 +314,12 @@ func (s *Sim) removeFile(host, name string) {
 	os.Remove(filepath.Join(s.hostDir(host), name))
 }
 
-func (s *Sim) startDaemon(host string) *Daemon {
+func (s *Sim) startDaemon(host string) (res *Daemon) {
+	tracked(func() { res = s.startDaemon0(host) })
+	return
+}
+
+func (s *Sim) startDaemon0(host string) *Daemon {
 	if d := s.liveByHost[host]; d != nil && d.alive {
 		return d
 	}
@@ -406,7 +411,12 @@ func (s *Sim) killDaemon(d *Daemon, graceful bool) {
 }
 
 // runCLI runs a real mysync CLI entry point as its own "process" on host.
-func (s *Sim) runCLI(host string, name string, f func(a *app.App) int) *Daemon {
+func (s *Sim) runCLI(host string, name string, f func(a *app.App) int) (res *Daemon) {
+	tracked(func() { res = s.runCLI0(host, name, f) })
+	return
+}
+
+func (s *Sim) runCLI0(host string, name string, f func(a *app.App) int) *Daemon {
 	s.hostInc["cli:"+host]++
 	n := s.hostInc["cli:"+host]
 	inc := fmt.Sprintf("%s#c%d", host, n)
